@@ -31,6 +31,12 @@ type c11Ref struct {
 	Hashes map[uint64]string `json:"hashes"` // height -> block hash (reference chain up to h+3)
 	DumpH  string            `json:"dump_h"`
 	DumpH1 string            `json:"dump_h1"`
+	Meta   map[uint64]string `json:"meta"` // height -> chain meta of the never-crashed replica at that height
+}
+
+func metaString(r *harness.Replica) string {
+	m := r.L.GetChainMeta()
+	return fmt.Sprintf("height=%d hash=%s interchain_tx_count=%d", m.Height, m.BlockHash, m.InterchainTxCount)
 }
 
 type c11Result struct {
@@ -169,6 +175,12 @@ func c11Probe(args []string) int {
 		res.Outcome, res.Detail = "state-mismatch", fmt.Sprintf("state store at height %d differs from the reference replica at that height", H)
 		return write()
 	}
+	// the chain meta (height, head hash, interchain transaction count) is part of what a recovered node
+	// has to agree on with one that never crashed
+	if want, ok := ref.Meta[H]; ok && metaString(r) != want {
+		res.Outcome, res.Detail = "chain-meta-mismatch", fmt.Sprintf("chain meta after recovery: %s; never-crashed replica at that height: %s", metaString(r), want)
+		return write()
+	}
 	for h := uint64(1); h < H; h++ {
 		b, err := r.L.GetBlock(h, false)
 		if err != nil || b.BlockHash.String() != ref.Hashes[h] {
@@ -193,6 +205,14 @@ func c11Probe(args []string) int {
 			res.Outcome, res.Detail = "continuation-differs", fmt.Sprintf("block %d executed after recovery has hash %s, the never-crashed replica %s", h, br.Block.BlockHash, ref.Hashes[h])
 			return write()
 		}
+	}
+	if want, ok := ref.Meta[ref.H+3]; ok && metaString(r) != want {
+		res.Outcome, res.Detail = "chain-meta-mismatch-after-continuing", fmt.Sprintf("chain meta after recovery and %d more blocks: %s; never-crashed replica: %s", ref.H+3-H, metaString(r), want)
+		return write()
+	}
+	if fs, _, _ := r.AuditChain(nil); len(fs) > 0 {
+		res.Outcome, res.Detail = "chain-audit:"+fs[0].Sig, fmt.Sprintf("chain store audit after recovery and continuation: %s (%d findings)", fs[0].Detail, len(fs))
+		return write()
 	}
 	res.Outcome = "ok"
 	r.Close()
@@ -246,7 +266,7 @@ func crash11Workload(args []string) int {
 	if self == "" {
 		self, _ = os.Executable()
 	}
-	heights := []uint64{12, 2, 23, 5, 11, 1, 0} // 0 = the commit of the genesis block itself
+	heights := []uint64{12, 2, 23, 5, 24, 1, 0} // 0 = the commit of the genesis block itself
 	for id := a.From; id < a.To; id++ {
 		rng := vlog.CaseRand(a.Seed, "crash11", id)
 		h := heights[id%len(heights)]
@@ -289,7 +309,15 @@ func crash11Workload(args []string) int {
 			if h == 23 {
 				h, creates = gen.R.Height(), true
 			}
+			if h == 24 {
+				// a crash in the middle of the generated history; the crash block carries an accepted request, so
+				// that the chain meta's interchain transaction count moves with it
+				h = gen.R.Height() + 2
+			}
 			for gen.R.Height() < h+4 || gen.R.Height() < 27 {
+				if gen.R.Height() == h {
+					g.forceReq = true
+				}
 				txs := g.genBlock(gen.R.Height() + 1)
 				if creates && gen.R.Height() == h {
 					ek := harness.EthAddr(harness.EthKey("eth-creator"))
@@ -306,6 +334,9 @@ func crash11Workload(args []string) int {
 				if err != nil {
 					w.Inconclusive(err.Error())
 					return
+				}
+				if res.Height == h+1 && res.Meta != nil && len(res.Meta.Counter) > 0 {
+					w.Count("crash_blocks_with_interchain_txs", 1)
 				}
 				g.absorb(txs, res)
 			}
@@ -343,7 +374,7 @@ func crash11Workload(args []string) int {
 			}
 			src := map[string]string{"PRE": filepath.Join(base, "PRE"), "POST": filepath.Join(base, "POST"), "MID": filepath.Join(base, "MID")}
 			copyTree(refDir, src["PRE"])
-			ref := &c11Ref{H: h, Hashes: map[uint64]string{}}
+			ref := &c11Ref{H: h, Hashes: map[uint64]string{}, Meta: map[uint64]string{}}
 			if h > 0 {
 				r, err := harness.Open(refDir, opts)
 				if err != nil {
@@ -351,6 +382,7 @@ func crash11Workload(args []string) int {
 					return
 				}
 				ref.DumpH = dumpNoJournal(r)
+				ref.Meta[h] = metaString(r)
 				r.Close()
 			}
 			if err := execNext(refDir); err != nil {
@@ -361,6 +393,7 @@ func crash11Workload(args []string) int {
 			{
 				r, _ := harness.Open(refDir, opts)
 				ref.DumpH1 = dumpNoJournal(r)
+				ref.Meta[h+1] = metaString(r)
 				r.Close()
 			}
 			if err := run(refDir, h+2, h+3); err != nil {
@@ -375,6 +408,7 @@ func crash11Workload(args []string) int {
 						ref.Hashes[x] = b.BlockHash.String()
 					}
 				}
+				ref.Meta[h+3] = metaString(r)
 				r.Close()
 			}
 			refFile := filepath.Join(base, "ref.json")
